@@ -210,6 +210,14 @@ def validate(func, *args, **kwds):
         p_kwds = p_defaults = {}
         p_required = set()
 
+    # get keyword-only parameters: they can only be given by name, never positionally
+    try:
+        _spec = inspect.getfullargspec(func)
+        kwonly = set(_spec.kwonlyargs or ())
+        kwonly_required = kwonly - set(_spec.kwonlydefaults or ())
+    except (TypeError, AttributeError):
+        kwonly = kwonly_required = set()
+
     # get bad args/kwds from markup
     bad_args = set(i.strip('!') for i in named if i.startswith('!'))
     bad_kwds = set(i.strip('!') for i in defaults if i.startswith('!'))
@@ -217,7 +225,7 @@ def validate(func, *args, **kwds):
     named, defaults = strip_markup(named, defaults)
 
     # FAIL if partial built for **kwds, but **kwds not used in func.func
-    p_varkwds = set(p_kwds) - bad_kwds - bad_args
+    p_varkwds = set(p_kwds) - bad_kwds - bad_args - kwonly
     if p_varkwds and not haskwds:
         raise TypeError("%s() got an unexpected keyword argument '%s'" % (func.__name__,p_varkwds.pop()))
 
@@ -229,13 +237,18 @@ def validate(func, *args, **kwds):
     # get any varargs; FAIL if func doesn't take varargs
     var_args = args[len(named):]
     if var_args and not hasargs:
-        var_kwds = set(kwds) - set(named)
+        var_kwds = set(kwds) - set(named) - kwonly
         raise TypeError("%s() takes at most %d arguments (%d given)" % (func.__name__, len(named)+len(p_args), len(p_args)+len(args)+len(kwds)))
 
     # check any varkwds; FAIL if func doesn't take varkwds
-    var_kwds = set(kwds) - set(named)
+    var_kwds = set(kwds) - set(named) - kwonly
     if var_kwds and not haskwds:
         raise TypeError("%s() got an unexpected keyword argument '%s'" % (func.__name__,var_kwds.pop()))
+
+    # FAIL if a keyword-only parameter without a default is not given by name
+    missing = kwonly_required - set(kwds) - set(p_kwds)
+    if missing:
+        raise TypeError("%s() missing required keyword-only argument '%s'" % (func.__name__,sorted(missing)[0]))
 
     # get user_args as a dict
     args_kwds = dict(zip(named,args))
